@@ -214,6 +214,9 @@ impl Monitor for C11 {
                                     detail(json!({"panic": String::from_utf8_lossy(out)})),
                                 );
                             }
+                            ChildEnd::Blocked => {
+                                acc.violation(format!("C11/blocked-in-a-system-call/{}/{}/{}", CLASS_NAMES[cls], mode, phase), case, detail(json!({"observation": "no CPU progress for 12 s"})));
+                            }
                             ChildEnd::Signaled(sig) if *sig == libc::SIGXCPU || *sig == libc::SIGKILL => {
                                 acc.violation(format!("C11/cpu-limit-exceeded/{}/{}/{}", CLASS_NAMES[cls], mode, phase), case, detail(json!({"signal": sig})));
                             }
